@@ -161,6 +161,7 @@ func KVAlphabet() []Op {
 	setOp("Set/absexp", eAbs, false, false, J(`{"v":"seta"}`), 1)
 	setOp("Set/preserve", e0, true, false, J(`{"v":"setp"}`), 0)
 	setOp("Set/oversize", e0, false, false, bigBody, 0)
+	setOp("SetRaw/empty", e0, false, true, []byte{}, 0) // a present but zero-length body is still a body
 
 	// ---- WriteCas --------------------------------------------------------------------------
 	writeCas := func(variant, tok string, e uint32, opt sgbucket.WriteOptions, val any, body []byte, tier int) {
